@@ -89,6 +89,11 @@ def map_rules(ctx, flavours):
             pv, cfg = F.prov(b), F.cfg(b)
             why = []
             cks = [(bi, t) for bi, t in calls_in(b) if _last(callee_name(t)) == 'contains_key']
+            # accepted idiom: the membership test as a lookup, `match map.get(k) { Some(_) => .., None => .. }` / `.get(k).is_some()`
+            via_get = False
+            if not cks:
+                cks = [(bi, t) for bi, t in calls_in(b) if _last(callee_name(t)) == 'get' and t['args'] and deep_unwrap(pv.of_operand(t['args'][0])) == MAPF]
+                via_get = True
             ins = [(bi, t) for bi, t in calls_in(b) if _last(callee_name(t)) == 'insert']
             if len(cks) != 1 or len(ins) != 1:
                 why.append('%d contains_key / %d insert calls' % (len(cks), len(ins)))
@@ -101,7 +106,11 @@ def map_rules(ctx, flavours):
                 ia = [deep_unwrap(pv.of_operand(x)) for x in it['args']]
                 if ia != [MAPF, key_of(P2_), P2_]:
                     why.append('inserts %s, expected (key(node), node)' % [pretty(x) for x in ia[1:]])
-                te, fe = cfg.bool_edges(ct['dst']['l'], ct['target'])
+                if via_get:
+                    from .core import outcome_edges
+                    te, fe = outcome_edges(F, b, cbi)      # Some = present, None = absent
+                else:
+                    te, fe = cfg.bool_edges(ct['dst']['l'], ct['target'])
                 if te is None:
                     why.append('membership test not branched on')
                 else:
